@@ -676,6 +676,72 @@ fn seed_texts(label: &str, seeds: &Arc<Vec<Seed>>, cfgs: &[Cfg], f: fn(&str, &Cf
     sf(label, seeds, cfgs, Box::new(move |s, c, ctx| f(&s.text, c, ctx)))
 }
 
+/// deep-nesting programs through the base layouts
+fn deep_variants(label: &str, g: &Arc<Grammar>, d: usize, max_depth: usize, cfgs: &[Cfg], f: fn(&str, &Cfg, &mut Ctx)) -> Box<dyn Family> {
+    Box::new(progs::DeepFamily {
+        label: label.to_string(),
+        g: g.clone(),
+        d,
+        max_depth,
+        cfgs: cfgs.to_vec(),
+        f: Box::new(move |_g, toks, c, ctx| {
+            let mut first = true;
+            for t in progs::base_texts(toks) {
+                if !first {
+                    ctx.sub_eval();
+                }
+                first = false;
+                f(&t, c, ctx);
+            }
+        }),
+    })
+}
+fn deep_c05(g: &Arc<Grammar>, d: usize, max_depth: usize, cfgs: &[Cfg]) -> Box<dyn Family> {
+    Box::new(progs::DeepFamily {
+        label: "c05".to_string(),
+        g: g.clone(),
+        d,
+        max_depth,
+        cfgs: cfgs.to_vec(),
+        f: Box::new(move |_g, toks, c, ctx| {
+            use crate::layout::{self, Base};
+            let mut first = true;
+            for b in [Base::L0, Base::L1, Base::L2] {
+                if !first {
+                    ctx.sub_eval();
+                }
+                first = false;
+                let x = layout::render(toks, &layout::base_gaps(toks, b));
+                let out = ctx.fmt(c, &x);
+                if o2::c02(&x, &out, c, ctx) {
+                    o2::c05(&x, toks, &out, c, ctx);
+                }
+            }
+        }),
+    })
+}
+fn deep_c06(g: &Arc<Grammar>, d: usize, max_depth: usize, cfgs: &[Cfg]) -> Box<dyn Family> {
+    Box::new(progs::DeepFamily {
+        label: "c06".to_string(),
+        g: g.clone(),
+        d,
+        max_depth,
+        cfgs: cfgs.to_vec(),
+        f: Box::new(move |_g, toks, c, ctx| {
+            let texts = progs::base_texts(toks);
+            let o0 = ctx.fmt(c, &texts[0]);
+            for t in &texts[1..] {
+                ctx.sub_eval();
+                ctx.nontrivial();
+                let o = ctx.fmt(c, t);
+                if o != o0 {
+                    ctx.fail("C06", o2::c06_signature(&texts[0], t, &o0, &o), o2::first_diff_line(&o0, &o), json!({"oracle": "c06", "input": texts[0], "input2": t, "cfg": c}));
+                }
+            }
+        }),
+    })
+}
+
 fn c05_family(g: &Arc<Grammar>, d: usize, cfgs: &[Cfg], flips: bool, comments: bool) -> Box<dyn Family> {
     pf(
         "c05",
@@ -892,6 +958,7 @@ pub fn families(check: &str, tier: &str) -> Vec<Box<dyn Family>> {
                     prog_variants("c02", &g(1), 1, &C_QUICK[..3], vo_all, f_c02),
                     seed_texts("c02", &wf_seeds(), &C_QUICK, f_c02),
                     tf("c02", lit_texts(2), &C_QUICK[..2], wf_lits(f_c02)),
+                    deep_variants("c02", &g(1), 1, 12, &C_QUICK[..3], f_c02),
                 ]
             } else {
                 vec![
@@ -900,6 +967,7 @@ pub fn families(check: &str, tier: &str) -> Vec<Box<dyn Family>> {
                     prog_variants("c02", &g(2), 2, &full, vo_base, f_c02),
                     seed_texts("c02", &wf_seeds(), &full, f_c02),
                     tf("c02", lit_texts(2), &C_QUICK, wf_lits(f_c02)),
+                    deep_variants("c02", &g(1), 1, 24, &C_QUICK, f_c02),
                 ]
             }
         }
@@ -910,6 +978,7 @@ pub fn families(check: &str, tier: &str) -> Vec<Box<dyn Family>> {
                     prog_variants("c03", &g(1), 1, &C_QUICK[..3], vo_all, f_c03),
                     seed_texts("c03", &wf_seeds(), &C_QUICK, f_c03),
                     tf("c03", lit_texts(2), &C_QUICK[..2], wf_lits(f_c03)),
+                    deep_variants("c03", &g(1), 1, 12, &C_QUICK[..3], f_c03),
                 ]
             } else {
                 vec![
@@ -918,6 +987,7 @@ pub fn families(check: &str, tier: &str) -> Vec<Box<dyn Family>> {
                     prog_variants("c03", &g(2), 2, &full, vo_base, f_c03),
                     seed_texts("c03", &wf_seeds(), &full, f_c03),
                     tf("c03", lit_texts(2), &C_QUICK, wf_lits(f_c03)),
+                    deep_variants("c03", &g(1), 1, 24, &C_QUICK, f_c03),
                 ]
             }
         }
@@ -965,12 +1035,14 @@ pub fn families(check: &str, tier: &str) -> Vec<Box<dyn Family>> {
             let c05q: Vec<Cfg> = C_QUICK.iter().copied().filter(|c| c.wrap >= 30).collect();
             let c05f: Vec<Cfg> = full.iter().copied().filter(|c| c.wrap >= 30).collect();
             if quick {
-                vec![c05_family(&g(2), 2, &c05q, false, false), c05_family(&g(1), 1, &c05q[..3], true, true)]
+                vec![c05_family(&g(2), 2, &c05q, false, false), c05_family(&g(1), 1, &c05q[..3], true, true), deep_c05(&g(1), 1, 16, &c05q[..3])]
             } else {
                 vec![
                     c05_family(&g(3), 3, &c05q[..3], false, false),
                     c05_family(&g(2), 2, &c05f, true, false),
                     c05_family(&g(2), 2, &c05q[..2], false, true),
+                    deep_c05(&g(1), 1, 24, &c05q),
+                    deep_c05(&g(2), 2, 8, &c05q[..2]),
                 ]
             }
         }
@@ -980,6 +1052,7 @@ pub fn families(check: &str, tier: &str) -> Vec<Box<dyn Family>> {
                     c06_prog_family(&g(2), 2, &C_QUICK[..2], ro_singles),
                     sf("c06", &wf_seeds(), &C_QUICK[..2], Box::new(|s, c, ctx| progs::c06_relayouts(&s.text, c, &ro_singles(), ctx))),
                     c06_comment_family(&g(1), 1, &C_QUICK[1..2], &[0, 2], &[0, 1]),
+                    deep_c06(&g(1), 1, 12, &C_QUICK[..3]),
                 ]
             } else {
                 vec![
@@ -987,6 +1060,7 @@ pub fn families(check: &str, tier: &str) -> Vec<Box<dyn Family>> {
                     c06_prog_family(&g(3), 3, &C_QUICK[..2], ro_singles),
                     sf("c06", &wf_seeds(), &C_QUICK, Box::new(|s, c, ctx| progs::c06_relayouts(&s.text, c, &ro_mid(), ctx))),
                     c06_comment_family(&g(1), 1, &C_QUICK[..3], &[0, 1, 2, 3, 4, 5, 6], &[0, 1, 2]),
+                    deep_c06(&g(1), 1, 24, &C_QUICK),
                 ]
             }
         }
@@ -1087,6 +1161,7 @@ pub fn families(check: &str, tier: &str) -> Vec<Box<dyn Family>> {
                     seed_texts("c08eof", &wf_seeds(), &C_QUICK, f_c08_eof),
                     tf("c08", lit_texts(2), &C_QUICK[..3], or_c08(false)),
                     tf("c08", soup(2, GAPS8, &["%", "begin % end"]), &C_QUICK[..3], or_c08(false)),
+                    deep_variants("c08eof", &g(1), 1, 12, &C_QUICK[..3], f_c08_eof),
                     tf("c08", large_texts(), &C_QUICK[..2], or_c08(false)),
                 ]
             } else {
